@@ -194,12 +194,20 @@ class SimCondition:
     notifyAll = notify_all
 
 
-def patch_locks():
+PERMANENT = [False]
+
+
+def patch_locks(permanent=False):
     threading.Lock, threading.RLock = SimLock, SimRLock
     threading.Event, threading.Condition = SimEvent, SimCondition
+    if permanent:
+        PERMANENT[0] = True
 
 
 def unpatch_locks():
+    if PERMANENT[0]:
+        return  # worker processes keep the simulated primitives for good: einx may create a lock at any time (e.g. inside an
+        # adapter built between two simulations) and use it inside the next one; outside a simulation they behave like the real ones
     threading.Lock, threading.RLock = _ORIG_LOCKS
     threading.Event, threading.Condition = _ORIG_EVENT, _ORIG_CONDITION
 
@@ -257,11 +265,8 @@ def bootstrap(warmup=True, sim_locks=True):
 
     warnings.simplefilter("ignore")
     if sim_locks:
-        patch_locks()
-    try:
-        import einx
-    finally:
-        unpatch_locks()
+        patch_locks(permanent=True)
+    import einx
     here = os.path.realpath(einx.__file__)
     if not here.startswith(os.path.realpath(REPO) + os.sep):
         raise RuntimeError(f"einx imported from {here}, expected under {REPO}")
